@@ -195,7 +195,63 @@ func iccSequences(r *ev.Run, depth int, keyPrefix string, header, desc bool) {
 			}
 		}
 	}
+	// one ProfileReader over several profiles stored back to back: every ReadProfile
+	// call must decode the next profile (state kept in the reader between calls must
+	// not leak from one profile into the next)
+	if !hung {
+		for i := range profs {
+			for j := range profs {
+				for k := range profs {
+					if k != i && (i+j+k)%2 == 1 {
+						continue
+					}
+					order := []int{i, j, k}
+					var cat []byte
+					for _, x := range order {
+						cat = append(cat, profs[x].data...)
+					}
+					pr := icc.NewProfileReader(bytes.NewReader(cat))
+					for n, x := range order {
+						var got *icc.Profile
+						var err error
+						ok, pn := withTimeout(60*time.Second, func() { got, err = pr.ReadProfile() })
+						seqs++
+						if !ok {
+							hung = true
+						}
+						name := fmt.Sprintf("profile %d of %v (%s) read with one ProfileReader over the concatenation", n+1, order, profs[x].name)
+						if !ok || pn != nil || err != nil || got == nil {
+							r.Violate(keyPrefix+"/back-to-back-read", fmt.Sprintf("%s: ReadProfile returned=%v panic=%v err=%v", name, ok, pn, err), nil, nil)
+							break
+						}
+						if header {
+							if d := cmpHeader(got.Header, profs[x].header); d != "" {
+								r.Violate(keyPrefix+"/back-to-back-header", fmt.Sprintf("%s: %s", name, d), nil, nil)
+							}
+						}
+						if desc && !profs[x].descErr {
+							if d, derr := got.Description(); derr != nil || !containsStr(profs[x].descs, d) {
+								r.Violate(keyPrefix+"/back-to-back-description", fmt.Sprintf("%s: Description() = %q (err %v), expected %q", name, d, derr, profs[x].descs), nil, nil)
+							}
+						}
+					}
+					if hung {
+						break
+					}
+				}
+			}
+		}
+	}
 	r.Eval(seqs)
 	r.DistinctN(seqs)
 	r.Set(keyPrefix+"_sequences", seqs)
+}
+
+func containsStr(ss []string, s string) bool {
+	for _, x := range ss {
+		if x == s {
+			return true
+		}
+	}
+	return false
 }
